@@ -138,7 +138,7 @@ def rand_dict(rng, depth, names, top=True):
     modes = []
     for _ in range(nm):
         fs = []
-        for _ in range(rng.choice([0, 1, 2, 2, 3, 4])):
+        for _ in range(rng.choice([0, 1, 2, 2, 3, 4, 6, 12])):
             if depth > 0 and rng.random() < 0.35:
                 sub = rand_dict(rng, depth - 1, names, top=False)
                 fs.append(sub)
